@@ -185,8 +185,6 @@ def run_case(seed, i, tier):
     plan = core.random_plan(prng, 1, budget=6_000_000)
     plan.hashseed = rng.getrandbits(32)
     res = core.execute(scn, plan)
-    if res.timed_out:
-        res = core.execute(scn, plan, wall_cap=120.0)
     tr = res.trace
     cr = CaseResult()
     cr.runs = 1
